@@ -94,7 +94,7 @@ func (propC20) Gen(r *Rand) *Plan {
 			ops = append(ops, Op{Op: "mutslice", J: r.Intn(c20Slices), I: r.Intn(5), V: &v})
 		case 5:
 			v := c20Scalar(r)
-			ops = append(ops, Op{Op: "setbyindex", H: h(), I: r.PickInt([]int{0, 0, 1, 2, 3, 5, 9, 16, 17, 33, 64}), V: &v})
+			ops = append(ops, Op{Op: "setbyindex", H: h(), I: r.PickInt([]int{0, 0, 1, 2, 3, 5, 9, 16, 17, 33, 64}), V: &v, J: r.Intn(12)})
 		case 6:
 			ops = append(ops, Op{Op: "setlength", H: h(), I: r.PickInt([]int{0, 1, 2, 3, 4, 5, 6, 7, 8, 16, 17, 40})})
 		case 7:
@@ -497,7 +497,15 @@ func (propC20) Exec(p *Plan, x *Ctx) *Outcome {
 				if ms[o.H].v.T != "Array" || o.V == nil || o.I < 0 || o.I > 64 {
 					continue
 				}
-				hs[o.H].SetByIndex(o.I, o.V.ToVariant())
+				if o.J == 7 {
+					// a nil element: allowed by the API, Equals and accessors have to cope
+					hs[o.H].SetByIndex(o.I, nil)
+					nilv := Val{T: "<nil>"}
+					o.V = &nilv
+					out.Probes["nil_element_written"]++
+				} else {
+					hs[o.H].SetByIndex(o.I, o.V.ToVariant())
+				}
 				taint(o.H)
 				if ms[o.H].known {
 					a := ms[o.H].v.A
@@ -587,7 +595,7 @@ func (propC20) Exec(p *Plan, x *Ctx) *Outcome {
 				}
 			case "mutelem":
 				m := ms[o.H]
-				if m.v.T != "Array" || !m.known || o.V == nil || o.I < 0 || o.I >= len(m.v.A) || len(m.ids) != len(m.v.A) || m.v.A[o.I].T == "Array" {
+				if m.v.T != "Array" || !m.known || o.V == nil || o.I < 0 || o.I >= len(m.v.A) || len(m.ids) != len(m.v.A) || m.v.A[o.I].T == "Array" || m.v.A[o.I].T == "<nil>" {
 					continue
 				}
 				id := m.ids[o.I]
